@@ -1,3 +1,4 @@
+import AtsimModel.Gen.Logic
 import AtsimModel.Model.Interp
 /-!
 # C15 — [Variables] substitution equals textual substitution and changes nothing else
@@ -163,5 +164,83 @@ theorem C15_section_shadows_variable :
 example : resolveVal ⟨[("Pair", [("A-B", [.lit "as.buck ", .ref "A", .lit " ", .ref "rho", .lit " 0"])])], [("A", [.lit "1000.0"]), ("rho", [.lit "0.3"])]⟩ 3 "Pair"
     [.lit "as.buck ", .ref "A", .lit " ", .ref "rho", .lit " 0"] = some "as.buck 1000.0 0.3 0" := by
   decide +kernel
+
+/-! ## Code tie: what the repository's `_RawConfigParser` adds to the standard library's parser (regenerated from the source) -/
+
+
+theorem filter_dropWhile_not {α : Type} (p : α → Bool) (l : List α) :
+    (l.dropWhile p).filter (fun c => !p c) = l.filter (fun c => !p c) := by
+  induction l with
+  | nil => rfl
+  | cons a l ih =>
+    by_cases h : p a
+    · simp [h, ih]
+    · simp [h]
+
+theorem filter_strip_list (l : List Char) :
+    ((l.dropWhile isBlank).reverse.dropWhile isBlank).reverse.filter (fun c => !isBlank c) = l.filter (fun c => !isBlank c) := by
+  rw [List.filter_reverse, filter_dropWhile_not, ← List.filter_reverse, List.reverse_reverse, filter_dropWhile_not]
+
+theorem filter_blank_tab (l : List Char) :
+    (l.filter (fun x => x != ' ')).filter (fun x => x != '\t') = l.filter (fun c => !isBlank c) := by
+  rw [List.filter_filter]
+  congr 1
+  funext c
+  by_cases h1 : c = ' ' <;> by_cases h2 : c = '\t' <;> simp [isBlank, bne, h1, h2, Bool.and_comm]
+
+theorem find?_reverse_of_pairwise {α : Type} (q : α → Bool) (l : List α)
+    (hd : l.Pairwise (fun a b => ¬ (q a = true ∧ q b = true))) :
+    l.reverse.find? q = l.find? q := by
+  induction l with
+  | nil => rfl
+  | cons a l ih =>
+    rw [List.pairwise_cons] at hd
+    rw [List.reverse_cons, List.find?_append, ih hd.2, List.find?_cons]
+    cases h : q a with
+    | true =>
+      have hn : l.find? q = none := by
+        rw [List.find?_eq_none]
+        intro b hb hqb
+        exact hd.1 b hb ⟨h, hqb⟩
+      simp [hn, h]
+    | false =>
+      cases hf : l.find? q <;> simp [h, hf]
+
+theorem lookupLast_eq_find {β : Type} (l : List (String × β)) (s : String)
+    (hd : l.Pairwise (fun a b => a.1 ≠ b.1)) :
+    Atsim.Gen.Logic.lookupLast l s = (l.find? (fun p => p.1 == s)).map (·.2) := by
+  unfold Atsim.Gen.Logic.lookupLast
+  rw [find?_reverse_of_pairwise]
+  refine hd.imp ?_
+  intro a b hab h
+  simp only [beq_iff_eq] at h
+  exact hab (h.1.trans h.2.symm)
+
+open Atsim.Gen.Logic in
+/-- **code tie**: `optionxform` (strip, then delete blanks and tabs) is the model's key normalisation `norm` -/
+theorem C15_code_optionxform (k : String) : raw_optionxform Atsim.strip k = norm k := by
+  simp only [raw_optionxform, removeChar, Atsim.strip, norm, String.toList_ofList]
+  rw [filter_blank_tab, filter_strip_list]
+
+open Atsim.Gen.Logic in
+/-- **code tie**: `has_option` of a section other than `[Variables]` looks among that section's OWN entries only (`_own_option`, keys compared after `optionxform`) -
+a variable is not an option of the other sections.  This is the premise of `C15_unused_neutral` ("a section lists its own keys only") for the code as written; for
+`[Variables]` itself (and for an empty section name) the standard library's method answers (`superHasOption`, a parameter). -/
+theorem C15_code_has_option (ini : Ini) (superHasOption : String → String → Bool) (s k : String)
+    (hd : ini.sections.Pairwise (fun a b => a.1 ≠ b.1)) (hne : s ≠ "") (hv : s ≠ "Variables") :
+    raw_has_option Atsim.strip superHasOption ini.sections "Variables" s k = hasOption currentCfg ini s k := by
+  have h1 : (s != "") = true := by simpa using hne
+  have h2 : (s == "Variables") = false := by simpa using hv
+  simp only [raw_has_option, raw_own_option, hasOption, currentCfg, testKey, h1, h2, if_true,
+    C15_code_optionxform, lookupLast_eq_find _ _ hd]
+  cases hf : ini.sections.find? (fun p => p.1 == s) with
+  | none => simp
+  | some q => obtain ⟨n, kvs⟩ := q; simp
+
+open Atsim.Gen.Logic in
+theorem C15_code_has_option_default (ini : Ini) (superHasOption : String → String → Bool) (k : String) :
+    raw_has_option Atsim.strip superHasOption ini.sections "Variables" "Variables" k = superHasOption "Variables" k ∧
+    raw_has_option Atsim.strip superHasOption ini.sections "Variables" "" k = superHasOption "" k := by
+  constructor <;> simp [raw_has_option]
 
 end Atsim.C15
